@@ -166,6 +166,9 @@ func (e *DefExecutor) workerDo(taskIns *entity.TaskInstance) {
 		entity.TaskInstanceStatusRetrying, entity.TaskInstanceStatusContinue:
 	default:
 		log.Warnf("this task instance[%s] is not executable, status[%s]", taskIns.ID, taskIns.Status)
+		// the delivery was registered by initWorkerTask: a registration left behind
+		// would make every later push of this task be dropped as "already running"
+		e.cancelMap.Delete(taskIns.ID)
 		return
 	}
 
